@@ -8,6 +8,6 @@ CONSTANT GrantMenu <- GM5
 CONSTANT MaxSteps = 12
 CONSTANT SplitWrite = FALSE
 CONSTANT SplitLoad = FALSE
-SPECIFICATION Spec
+SPECIFICATION SimSpec
 INVARIANT SimExport
 CHECK_DEADLOCK FALSE
